@@ -544,7 +544,8 @@ fill_yly_ycw(bitint383_t *restrict cand, unsigned int y, const bitint447_t *dow)
 			continue;
 		} else if (!(yd = ycw_get_yday(y, cd.cnt, cd.dow))) {
 			continue;
-		} else if (!(md = yd_to_md(y, yd)).m) {
+		} else if (!(md = yd_to_md(y, yd)).m || md.m > 12U) {
+			/* day 366 of a common year and the like */
 			continue;
 		}
 		/* otherwise it's looking good */
@@ -569,7 +570,8 @@ fill_yly_yd(
 		    !((wd_mask >> yd_get_wday(y, yd)) & 0b1U)) {
 			/* weekday is masked out */
 			continue;
-		} else if (!(md = yd_to_md(y, yd)).m) {
+		} else if (!(md = yd_to_md(y, yd)).m || md.m > 12U) {
+			/* day 366 of a common year and the like */
 			/* something's wrong again */
 			continue;
 		}
@@ -667,7 +669,8 @@ fill_yly_eastr(
 		} else if (!(yd += offs) || yd > 366) {
 			/* huh? */
 			continue;
-		} else if (!(md = yd_to_md(y, yd)).m) {
+		} else if (!(md = yd_to_md(y, yd)).m || md.m > 12U) {
+			/* day 366 of a common year and the like */
 			continue;
 		} else if (!md_match_p(md, m, d)) {
 			/* can't use this one, user wants it masked */
